@@ -362,6 +362,28 @@ def rule_c(ctx):
     else:
         ex = "; ".join("`%s` merged with `%s` (%s): code %s, reference %s" % e for e in first_bad)
         r.violate("merge|decision-table", "MediaQuery::merge decides %d of %d abstract query pairs differently from the dart-sass reference, e.g. %s" % (bad, n, ex), b.loc())
+    # one query negated, different concrete types: the *positive* query survives (its conditions are the ones cloned)
+    npos = 0
+    for c in b.calls():
+        if an.tail2(c.callee) != "Clone::clone" or not c.args:
+            continue
+        src = an.trace_operand(b, c.args[0])
+        if src.root[0] != "arg" or src.proj[-1:] != ("conditions",):
+            continue
+        vals, complete = psa.valuations_at(b, c.bb, classify, max_states=200000)
+        if not complete or not vals or not all(v.get(("ONE_NEG",)) is True for v in vals):
+            continue
+        npos += 1
+        who = "self" if src.root[1] == 1 else "other"
+        key = "merge|one-negated|keeps-the-positive-query|%s" % who
+        # cloning self.conditions is right exactly when self is the positive one
+        want_neg_self = (who == "other")
+        if all(v.get(("NEG", "self")) is want_neg_self for v in vals):
+            r.ok(key)
+        else:
+            r.violate(key, "in the branch where exactly one query is negated and the types differ, MediaQuery::merge keeps %s.conditions on a path where %s is the *negated* "
+                      "query: `@media not print {.c {@media screen and (color) {..}}}` must become `screen and (color)`, not `not print`" % (who, who), c.loc())
+    r.floor("positive-query selections in the one-negated branch", npos, 2)
     # matches_all_types is `type is none or equals "all" ignoring case`
     mat = prog.one("ast::media::MediaQuery::matches_all_types")
     isn = [c for c in mat.calls() if an.tail2(c.callee) == "Option::is_none" and derives_from_field(mat, an.trace_operand(mat, c.args[0]), 1, "media_type")]
